@@ -120,6 +120,9 @@ func encrypt(t *rapid.T, c *encCase) []byte {
 	if err != nil {
 		t.Fatalf("Encrypt(len %d) error: %v", len(c.pt), err)
 	}
+	if w := sm2x.IntactPub(pub, c.key.Pub); w != "" {
+		t.Fatalf("Encrypt modified the caller's public key object (%s)", w)
+	}
 	k := sm2x.NonceFromBlock(c.block)
 	want, x2, y2, retry := cv.Encrypt(c.key.Pub, c.pt, k, c.mode)
 	if retry {
@@ -179,6 +182,9 @@ func TestC02_RoundTripExact(t *testing.T) {
 		}
 		if err != nil || !bytes.Equal(pt, c.pt) {
 			t.Fatalf("Decrypt(Encrypt(m)) form=%s mode=%d: err=%v got %x want %x", c.form, c.mode, err, pt, c.pt)
+		}
+		if w := sm2x.Intact(priv, c.key); w != "" {
+			t.Fatalf("Decrypt modified the caller's key object (%s)", w)
 		}
 		// the library's own ASN.1 converters are inverse on this ciphertext
 		if c.mode == sm2.C1C3C2 {
